@@ -24,8 +24,8 @@ func c01(tier string) {
 		"per-value atoms are placed on single-valued properties and containsAll/containsSome on non-empty value sets (DESIGN §5 C01 fence i)",
 		"the reference evaluator is the harness's reading of the statement of C01; atoms are true/false by construction of the data",
 	}
-	nSkel := ctx.N(100, 1800)      // profiles, 3 families each
-	nQuant := ctx.N(60, 900)       // profiles, 2 families each
+	nSkel := ctx.N(100, 1000)      // profiles, 3 families each
+	nQuant := ctx.N(60, 500)       // profiles, 2 families each
 	nSweep := len(c01SweepKinds()) // one profile per offset: every kind of atom at every position of the variable order
 	total := nSkel + nQuant + nSweep
 	if !ctx.IsShard() {
